@@ -54,9 +54,13 @@ var c14apiFor = map[string][]int{
 	"switch":  {1, 2, 3},
 	"update":  {1, 2},
 	"install": {4},
+	// the alias entry points (snapstate.Alias / DisableAllAliases / Prefer)
+	"alias":   {1, 2},
+	"unalias": {1, 3},
+	"prefer":  {2, 3},
 }
 var c14apiKinds = map[string]string{"remove": "remove-snap", "disable": "disable-snap", "enable": "enable-snap", "revert": "revert-snap",
-	"switch": "switch-snap", "update": "refresh-snap", "install": "install-snap"}
+	"switch": "switch-snap", "update": "refresh-snap", "install": "install-snap", "alias": "alias", "unalias": "unalias", "prefer": "prefer"}
 
 func c14apiGen(r *vh.Rand, tier string, n int) []c14Hist {
 	if n == 0 {
@@ -73,7 +77,7 @@ func c14apiGen(r *vh.Rand, tier string, n int) []c14Hist {
 		for _, s1 := range c14apiFor[a1] {
 			for _, a2 := range apis {
 				for _, s2 := range c14apiFor[a2] {
-					if tier != "thorough" && s1 != s2 && (a1 > "e" || a2 > "e") {
+					if tier != "thorough" && s1 != s2 && (a1 > "b" || a2 > "e") {
 						continue // quick tier: all same-snap pairs, a sample of different-snap pairs
 					}
 					r1, r2 := c14Op{K: "request", API: a1, Snap: s1}, c14Op{K: "request", API: a2, Snap: s2}
@@ -132,6 +136,14 @@ func (s *verifC14Suite) request(op c14Op) (*state.TaskSet, error) {
 		return snapstate.Update(st, name, &snapstate.RevisionOptions{Channel: "some-channel"}, s.user.ID, snapstate.Flags{})
 	case "install":
 		return snapstate.Install(context.Background(), st, name, &snapstate.RevisionOptions{Channel: "some-channel"}, s.user.ID, snapstate.Flags{})
+	}
+	switch op.API {
+	case "alias":
+		return snapstate.Alias(st, name, "cmd", "verif-alias")
+	case "unalias":
+		return snapstate.DisableAllAliases(st, name)
+	case "prefer":
+		return snapstate.Prefer(st, name)
 	}
 	panic("unknown api " + op.API)
 }
